@@ -256,3 +256,30 @@ def c12(ck):
                    "distinct by content")
     ck.trace("ctor", "ctor", ["-n", q(ck, 600, 20000)], "TraceItems", "TraceItems.cfg", ["InvC12"])
     ck.assumptions.append(ITEMS_NOTE)
+
+
+# ---------------------------------------------------------------------------------------------- C10
+@check("C10", design_ref="4 C10, App. B",
+       technique="TLC model checking that a TLA+ transcription of the fillState machine equals a declarative definition of expansion; TLC cases replayed through real FillVariables; trace validation of results and of fillState hook events",
+       text="Ellipsis.tla holds the documented semantics (Expand, renumbering) and, next to it, the code's fillState machine with its step log. "
+            "TLC checks machine = semantics, unique names and a balanced dimension stack for every template of a bounded scope and every partial "
+            "or total assignment; a sample of those cases and seeded random templates (nesting to depth 5, counts 0..4, unknown ellipsis keys) "
+            "are run through the real ListNode.FillVariables; TLC compares the result with the semantics, re-fills generated names "
+            "individually, and compares the recorded hook events step by step with the machine's log.",
+       note=ITEMS_NOTE + "; declared freedom: exactly one remaining ellipsis may be named '...' or '...[0]' (the code over-counts remaining ellipses)")
+def c10(ck):
+    ck.rule.append("model: lists of <= 2 leaves (5 leaf kinds) nested one level, ellipsis at any legal position, all partial/total assignments of "
+                   "counts 0..1 (quick) / 0..2 (thorough); replay: a sample of those; traces: random templates with nested ellipses; "
+                   "non-trivial = at least one ellipsis filled with n >= 1; distinct by (template, counts)")
+    r = ck.model("MCEllipsis", "MCEllipsis", "MCEllipsis_%s.cfg" % ck.tier, timeout=q(ck, 900, 6000))
+    table = write_cases(ck, r.cases, "ellcases.ndjson")
+    nt = lambda e: any(c.get("n", 0) >= 1 for c in e.get("cnt", []))
+    key = lambda e: json.dumps([e.get("tmpl", {}).get("abs"), e.get("cnt")], sort_keys=True)
+    ev = ck.trace("replay", "ell-replay", ["-in", table], "TraceEllipsis", "TraceEllipsis.cfg", ["InvC10"], agree=["InvAgreeC10"],
+                  nontrivial=nt, key=key)
+    ck.replayed += len(ev)
+    if ck.violations:
+        return
+    ck.trace("ell", "ell", ["-n", q(ck, 1500, 30000)], "TraceEllipsis", "TraceEllipsis.cfg", ["InvC10"], agree=["InvAgreeC10"],
+             nontrivial=nt, key=key)
+    ck.assumptions.append(ITEMS_NOTE)
